@@ -42,6 +42,12 @@ func (c *vhCtx) Deadline() (time.Time, bool)       { return time.Time{}, false }
 func (c *vhCtx) Done() <-chan struct{}             { return c.done }
 func (c *vhCtx) Err() error                        { return c.err }
 func (c *vhCtx) Value(key interface{}) interface{} { return nil }
+func (c *vhCtx) expire() {
+	if c.err == nil {
+		c.err = context.DeadlineExceeded
+		close(c.done)
+	}
+}
 func (c *vhCtx) cancel() {
 	if c.err == nil {
 		c.err = context.Canceled
@@ -60,6 +66,7 @@ const (
 	vhFaultWrite    = 5 // the write is rejected
 	vhFaultWriteDl  = 6 // SetWriteDeadline fails
 	vhFaultCancel   = 7 // the context is cancelled after the prefix
+	vhFaultDeadline = 8 // the caller's context deadline expires after the prefix
 )
 
 type vhRead struct {
@@ -150,6 +157,11 @@ func (s *vhScript) read(p []byte) (int, error) {
 		return s.record(p, n, nil)
 	case vhFaultCancel:
 		s.ctx.cancel()
+		vndYield() // natively: let contexts derived from ours notice (they watch the parent from a goroutine)
+		return s.record(p, 0, os.ErrDeadlineExceeded)
+	case vhFaultDeadline:
+		s.ctx.expire()
+		vndYield()
 		return s.record(p, 0, os.ErrDeadlineExceeded)
 	}
 	// nothing more to send (complete reply delivered, or stall): the read times out and time passes
